@@ -357,6 +357,7 @@ func init() {
 
 	// clock
 	reg("Now", func(in *Interp, fr *frame, a []Value) Value {
+		in.traceStack = stackOf(fr)
 		t := in.clockNow()
 		return Tuple{t.Sec, t.Nsec}
 	})
